@@ -51,8 +51,14 @@ def _one_run(prop, run_seed):
         signal.setitimer(signal.ITIMER_REAL, 0)
 
 
-def chunk_main(pid, seed, lo, hi, sample_mod, conn, want_samples, all_digests=False):
-    """Runs indices [lo, hi) in this (freshly forked) process."""
+def chunk_main(pid, seed, lo, hi, sample_mod, conn, want_samples, all_digests=False, fresh_after_violation=True):
+    """
+    Runs indices [lo, hi) in this (freshly forked) process.  A run that ends
+    in a violation may have left process-wide state behind (a library that is
+    wrong can be wrong about module-level tables too): the rest of the chunk
+    is then handed back (`resume`) to be run in another fresh process, so
+    that every reported history stands on its own.
+    """
     out = {
         "lo": lo,
         "hi": hi,
@@ -129,8 +135,15 @@ def chunk_main(pid, seed, lo, hi, sample_mod, conn, want_samples, all_digests=Fa
                         "cfg": res.cfg,
                         "ops": res.ops,
                         "violation": res.violation,
+                        # no earlier run of this process ended in a violation
+                        "clean_process": not out["violations"],
                     }
                 )
+            if res.violation is not None and fresh_after_violation and i + 1 < hi:
+                out["resume"] = [i + 1, hi]
+                out["hi"] = i + 1
+                out["stats"]["note:process-retired-after-a-violating-run"] += 1
+                break
             if res.violation is not None and res.violation["kind"].endswith("/nontermination"):
                 # whatever did not come back may have left this process in a
                 # state (a held lock, say) in which nothing comes back any more:
@@ -168,13 +181,16 @@ def run_parallel(pid, seed, nruns, workers, sample_mod, wall_cap_s, chunk=None, 
     done = []
     t0 = time.time()
     timed_out = False
+    retired = 0
     while todo or live:
         while todo and len(live) < workers:
             lo, hi = todo.pop()
             parent, child = MP.Pipe(duplex=False)
             p = MP.Process(
                 target=chunk_main,
-                args=(pid, seed, lo, hi, sample_mod, child, 3 if lo == 0 else 0, all_digests),
+                # on a tree that fails everywhere a process per run would
+                # never finish: after enough retirements chunks run through
+                args=(pid, seed, lo, hi, sample_mod, child, 3 if lo == 0 else 0, all_digests, retired < 48),
             )
             p.start()
             child.close()
@@ -193,6 +209,9 @@ def run_parallel(pid, seed, nruns, workers, sample_mod, wall_cap_s, chunk=None, 
             conn.close()
             p.join()
             done.append(data)
+            if data.get("resume"):
+                retired += 1
+                todo.append(tuple(data["resume"]))
         if time.time() - t0 > wall_cap_s:
             timed_out = True
             for conn, (p, lo, hi) in live.items():
@@ -228,7 +247,8 @@ def run_parallel(pid, seed, nruns, workers, sample_mod, wall_cap_s, chunk=None, 
         merged["violations"].extend(d["violations"])
         merged["samples"].extend(d["samples"])
         merged["digests"].update(d["digests"])
-    merged["violations"].sort(key=lambda v: v["index"])
+    # histories from a process in which nothing had gone wrong before come first
+    merged["violations"].sort(key=lambda v: (not v.get("clean_process", True), v["index"]))
     return merged
 
 
@@ -553,6 +573,7 @@ def run_check(pid, tier, seed, nruns=None, workers=None):
         harness_errors.append(
             f"wall cap {budget['wall_cap_s']}s hit after {merged['runs']} of {nruns} runs"
         )
+    tainted_unreproduced = []
     for kind, v in list(by_kind.items())[:6]:
         ops, tests, viol = minimise(pid, v)
         v2 = dict(v)
@@ -569,10 +590,17 @@ def run_check(pid, tier, seed, nruns=None, workers=None):
                     rc, path, ops, viol = 1, path_full, v["ops"], v["violation"]
                     lines.append("note: the minimised history did not reproduce in a fresh interpreter; reporting the full recorded history")
             if rc != 1:
-                harness_errors.append(
+                msg = (
                     f"replay of {path} in a fresh interpreter did not reproduce "
                     f"(rc={rc}): {outp[-400:]}"
                 )
+                if v.get("clean_process", True):
+                    harness_errors.append(msg)
+                else:
+                    # recorded in a process in which an earlier run had already
+                    # ended in a violation: what that run left behind is not
+                    # part of this history
+                    tainted_unreproduced.append(msg)
                 continue
         hit = None
         for f in known.get("open", []):
@@ -592,6 +620,14 @@ def run_check(pid, tier, seed, nruns=None, workers=None):
             lines.append(f"VIOLATION property={pid} replay={path}")
         reported.append({"kind": viol["kind"], "replay": path, "ops": ops})
 
+    if tainted_unreproduced:
+        if n_viol:
+            lines.append(
+                f"note: {len(tainted_unreproduced)} further kind(s) of violation were seen only in processes in which an "
+                "earlier run had already failed, and do not reproduce on their own; not reported"
+            )
+        else:
+            harness_errors.extend(tainted_unreproduced)
     # pinned scenarios for open findings that the generator avoids
     pinned = getattr(prop, "pinned_known", None)
     if pinned is not None:
